@@ -94,10 +94,16 @@ type arrival struct {
 
 type specAbort struct{}
 
+type siteKey struct {
+	fn  *ssa.Function
+	blk int
+}
+type siteStat struct{ ok, fail int }
+
 var pureModels = map[string]bool{"fmt.Errorf": true, "fmt.Sprintf": true, "fmt.Sprint": true, "errors.Join": true, "bytes.Equal": true, "math.Ceil": true}
 
 // execPure executes instruction in if it is side-effect free; returns false otherwise.
-func (e *Engine) execPure(st *State, fr *Frame, in ssa.Instruction) bool {
+func (e *Engine) execPure(st *State, fr *Frame, in ssa.Instruction, budget *int) bool {
 	switch x := in.(type) {
 	case *ssa.DebugRef:
 	case *ssa.BinOp:
@@ -144,19 +150,49 @@ func (e *Engine) execPure(st *State, fr *Frame, in ssa.Instruction) bool {
 	case *ssa.Call:
 		b, ok := x.Call.Value.(*ssa.Builtin)
 		if !ok {
-			// calls to side-effect-free models
-			callee := x.Call.StaticCallee()
-			if callee == nil || x.Call.IsInvoke() || !pureModels[callee.String()] {
-				return false
+			var callee *ssa.Function
+			var args, bind []Value
+			if x.Call.IsInvoke() {
+				recv, isIface := e.get(st, fr, x.Call.Value).(IfaceV)
+				if !isIface || recv.typ == nil || recv.typ == e.opaqueErrT || recv.typ == ctxTokT || recv.typ == shaHasherT {
+					return false
+				}
+				callee = e.lookupMethod(recv.typ, x.Call.Method)
+				args = append(args, recv.v)
+			} else if sc := x.Call.StaticCallee(); sc != nil {
+				callee = sc
+				if mc, isClosure := x.Call.Value.(*ssa.MakeClosure); isClosure {
+					for _, bv := range mc.Bindings {
+						bind = append(bind, e.get(st, fr, bv))
+					}
+				}
+			} else {
+				fv, isFn := e.get(st, fr, x.Call.Value).(FuncV)
+				if !isFn || fv.fn == nil {
+					return false
+				}
+				callee, bind = fv.fn, fv.bind
 			}
-			var args []Value
 			for _, a := range x.Call.Args {
 				args = append(args, e.get(st, fr, a))
 			}
-			r, handled := e.tryModel(st, callee, args, nil)
-			if !handled {
+			if pureModels[callee.String()] {
+				r, handled := e.tryModel(st, callee, args, nil)
+				if !handled {
+					return false
+				}
+				if r != nil {
+					e.set(fr, x, r)
+				}
+				return true
+			}
+			if e.findModel(callee) != nil || isHarnessIntrinsic(e.prog, callee) {
 				return false
 			}
+			if _, redirected := e.redirects[callee.String()]; redirected {
+				callee = e.redirects[callee.String()]
+			}
+			r := e.specCall(st, callee, args, bind, budget)
 			if r != nil {
 				e.set(fr, x, r)
 			}
@@ -178,9 +214,62 @@ func (e *Engine) execPure(st *State, fr *Frame, in ssa.Instruction) bool {
 	return true
 }
 
-// specRegion explores from blk (entered from pred) to join purely.
+// specRegion explores from blk (entered from pred) to join purely. Symbolic branches whose own
+// post-dominator lies strictly inside the region are merged there (so loops with conditional
+// updates do not multiply arrivals); others propagate their arrivals to the outer join.
 func (e *Engine) specRegion(st *State, fr *Frame, blk, pred, join *ssa.BasicBlock, cond *Term, budget *int, out *[]arrival) {
-	if blk == join {
+	e.specRegionFrom(st, fr, blk, pred, join, cond, budget, out, false)
+}
+
+func (e *Engine) mergePhisAt(st *State, fr *Frame, jb *ssa.BasicBlock, arr []arrival) bool {
+	var phis []*ssa.Phi
+	for _, in := range jb.Instrs {
+		phi, isPhi := in.(*ssa.Phi)
+		if !isPhi {
+			break
+		}
+		phis = append(phis, phi)
+	}
+	vals := make([]Value, len(phis))
+	for k, phi := range phis {
+		var acc Value
+		for a := len(arr) - 1; a >= 0; a-- {
+			ar := arr[a]
+			if ar.isRet {
+				return false
+			}
+			pi := -1
+			for i, p := range jb.Preds {
+				if p == ar.pred {
+					pi = i
+				}
+			}
+			if pi < 0 {
+				return false
+			}
+			tmp := *fr
+			tmp.regs = ar.regs
+			v := e.get(st, &tmp, phi.Edges[pi])
+			if acc == nil {
+				acc = v
+				continue
+			}
+			m, mok := e.mergeValues(ar.cond, v, acc)
+			if !mok {
+				return false
+			}
+			acc = m
+		}
+		vals[k] = acc
+	}
+	for k, phi := range phis {
+		e.set(fr, phi, vals[k])
+	}
+	return true
+}
+
+func (e *Engine) specRegionFrom(st *State, fr *Frame, blk, pred, join *ssa.BasicBlock, cond *Term, budget *int, out *[]arrival, phisDone bool) {
+	if blk == join && !phisDone {
 		*out = append(*out, arrival{cond: cond, pred: pred, regs: fr.regs})
 		return
 	}
@@ -192,27 +281,30 @@ func (e *Engine) specRegion(st *State, fr *Frame, blk, pred, join *ssa.BasicBloc
 	nf := *fr
 	nf.regs = append([]Value(nil), fr.regs...)
 	nf.block, nf.prev = blk, pred
-	// phis (parallel)
-	var vals []Value
-	var phis []*ssa.Phi
+	nphi := 0
 	for _, in := range blk.Instrs {
-		phi, ok := in.(*ssa.Phi)
-		if !ok {
+		if _, ok := in.(*ssa.Phi); !ok {
 			break
 		}
-		pi := -1
-		for i, p := range blk.Preds {
-			if p == pred {
-				pi = i
+		nphi++
+	}
+	if !phisDone && nphi > 0 {
+		var vals []Value
+		for _, in := range blk.Instrs[:nphi] {
+			phi := in.(*ssa.Phi)
+			pi := -1
+			for i, p := range blk.Preds {
+				if p == pred {
+					pi = i
+				}
 			}
+			vals = append(vals, e.get(st, &nf, phi.Edges[pi]))
 		}
-		vals = append(vals, e.get(st, &nf, phi.Edges[pi]))
-		phis = append(phis, phi)
+		for i, in := range blk.Instrs[:nphi] {
+			e.set(&nf, in.(*ssa.Phi), vals[i])
+		}
 	}
-	for i, phi := range phis {
-		e.set(&nf, phi, vals[i])
-	}
-	for _, in := range blk.Instrs[len(phis):] {
+	for _, in := range blk.Instrs[nphi:] {
 		switch x := in.(type) {
 		case *ssa.Return:
 			if join != nil {
@@ -233,28 +325,87 @@ func (e *Engine) specRegion(st *State, fr *Frame, blk, pred, join *ssa.BasicBloc
 			*out = append(*out, arrival{cond: cond, pred: blk, isRet: true, ret: rv})
 			return
 		case *ssa.Jump:
-			e.specRegion(st, &nf, blk.Succs[0], blk, join, cond, budget, out)
+			e.specRegionFrom(st, &nf, blk.Succs[0], blk, join, cond, budget, out, false)
 			return
 		case *ssa.If:
 			c := e.get(st, &nf, x.Cond).(*Term)
 			if v, ok := st.known(c); ok {
 				if v != 0 {
-					e.specRegion(st, &nf, blk.Succs[0], blk, join, cond, budget, out)
+					e.specRegionFrom(st, &nf, blk.Succs[0], blk, join, cond, budget, out, false)
 				} else {
-					e.specRegion(st, &nf, blk.Succs[1], blk, join, cond, budget, out)
+					e.specRegionFrom(st, &nf, blk.Succs[1], blk, join, cond, budget, out, false)
 				}
 				return
 			}
-			e.specRegion(st, &nf, blk.Succs[0], blk, join, e.ts.And(cond, c), budget, out)
-			e.specRegion(st, &nf, blk.Succs[1], blk, join, e.ts.And(cond, e.ts.Not(c)), budget, out)
+			ip := ipdoms(blk.Parent())
+			var inner *ssa.BasicBlock
+			if j := ip[blk.Index]; j >= 0 {
+				inner = blk.Parent().Blocks[j]
+			}
+			if inner != nil && inner != join {
+				// merge at the inner join, then continue from there
+				var arr []arrival
+				e.specRegionFrom(st, &nf, blk.Succs[0], blk, inner, c, budget, &arr, false)
+				e.specRegionFrom(st, &nf, blk.Succs[1], blk, inner, e.ts.Not(c), budget, &arr, false)
+				if !e.mergePhisAt(st, &nf, inner, arr) {
+					panic(specAbort{})
+				}
+				e.specRegionFrom(st, &nf, inner, blk, join, cond, budget, out, true)
+				return
+			}
+			e.specRegionFrom(st, &nf, blk.Succs[0], blk, join, e.ts.And(cond, c), budget, out, false)
+			e.specRegionFrom(st, &nf, blk.Succs[1], blk, join, e.ts.And(cond, e.ts.Not(c)), budget, out, false)
 			return
 		default:
-			if !e.execPure(st, &nf, in) {
+			if !e.execPure(st, &nf, in, budget) {
 				panic(specAbort{})
 			}
 		}
 	}
 	panic(specAbort{})
+}
+
+// specCall evaluates a call to a Go function purely (all paths merged); aborts if impure.
+func (e *Engine) specCall(st *State, fn *ssa.Function, args, bind []Value, budget *int) Value {
+	e.specDepth++
+	defer func() { e.specDepth-- }()
+	if e.specDepth > 6 || len(fn.Blocks) == 0 {
+		panic(specAbort{})
+	}
+	fi := getFuncInfo(fn)
+	fr := &Frame{fi: fi, fn: fn, block: fn.Blocks[0], regs: make([]Value, fi.nregs), visits: map[int]int{}}
+	if len(args) != len(fn.Params) {
+		panic(specAbort{})
+	}
+	copy(fr.regs, args)
+	copy(fr.regs[len(fn.Params):], bind)
+	var arr []arrival
+	e.specRegionFrom(st, fr, fn.Blocks[0], nil, nil, e.ts.True, budget, &arr, false)
+	var acc Value
+	for a := len(arr) - 1; a >= 0; a-- {
+		if !arr[a].isRet {
+			panic(specAbort{})
+		}
+		if a == len(arr)-1 {
+			acc = arr[a].ret
+			continue
+		}
+		if acc == nil || arr[a].ret == nil {
+			if acc != nil || arr[a].ret != nil {
+				panic(specAbort{})
+			}
+			continue
+		}
+		m, ok := e.mergeValues(arr[a].cond, arr[a].ret, acc)
+		if !ok {
+			panic(specAbort{})
+		}
+		acc = m
+	}
+	if e.fnsSeen != nil {
+		e.fnsSeen[fn.String()] = true
+	}
+	return acc
 }
 
 // tryIfConvert attempts to merge the two sides of the symbolic branch at the top frame's current
@@ -263,6 +414,22 @@ func (e *Engine) tryIfConvert(st *State, fr *Frame, c *Term) (done bool) {
 	if e.noIfConv {
 		return false
 	}
+	site := siteKey{fr.fn, fr.block.Index}
+	if s := e.ifSites[site]; s != nil && s.fail >= 6 && s.ok == 0 {
+		return false
+	}
+	defer func() {
+		s := e.ifSites[site]
+		if s == nil {
+			s = &siteStat{}
+			e.ifSites[site] = s
+		}
+		if done {
+			s.ok++
+		} else {
+			s.fail++
+		}
+	}()
 	ip := ipdoms(fr.fn)
 	j := ip[fr.block.Index]
 	var join *ssa.BasicBlock
@@ -281,7 +448,8 @@ func (e *Engine) tryIfConvert(st *State, fr *Frame, c *Term) (done bool) {
 				ok = false
 			}
 		}()
-		budget := 24
+		budget := 400
+		e.specDepth = 0
 		e.specRegion(st, fr, fr.block.Succs[0], fr.block, join, c, &budget, &arr)
 		e.specRegion(st, fr, fr.block.Succs[1], fr.block, join, e.ts.Not(c), &budget, &arr)
 		return true
@@ -320,54 +488,38 @@ func (e *Engine) tryIfConvert(st *State, fr *Frame, c *Term) (done bool) {
 		e.doReturn(st, acc)
 		return true
 	}
-	// phis at the join
-	var phis []*ssa.Phi
+	if !e.mergePhisAt(st, fr, join, arr) {
+		return false
+	}
+	nphis := 0
 	for _, in := range join.Instrs {
-		phi, isPhi := in.(*ssa.Phi)
-		if !isPhi {
+		if _, isPhi := in.(*ssa.Phi); !isPhi {
 			break
 		}
-		phis = append(phis, phi)
-	}
-	vals := make([]Value, len(phis))
-	for k, phi := range phis {
-		var acc Value
-		for a := len(arr) - 1; a >= 0; a-- {
-			ar := arr[a]
-			pi := -1
-			for i, p := range join.Preds {
-				if p == ar.pred {
-					pi = i
-				}
-			}
-			if pi < 0 {
-				return false
-			}
-			tmp := *fr
-			tmp.regs = ar.regs
-			v := e.get(st, &tmp, phi.Edges[pi])
-			if acc == nil {
-				acc = v
-				continue
-			}
-			m, mok := e.mergeValues(ar.cond, v, acc)
-			if !mok {
-				return false
-			}
-			acc = m
-		}
-		vals[k] = acc
-	}
-	for k, phi := range phis {
-		e.set(fr, phi, vals[k])
+		nphis++
 	}
 	fr.prev = fr.block
 	fr.block = join
-	fr.ip = len(phis)
+	fr.ip = nphis
 	fr.visits[join.Index]++
 	if fr.visits[join.Index] > e.maxUnwind {
 		panic(boundExceeded{"unwinding bound exceeded at merged join"})
 	}
 	e.res.PathStatus["if-converted"]++
 	return true
+}
+
+func isHarnessIntrinsic(prog *ssa.Program, fn *ssa.Function) bool {
+	name := fn.Name()
+	if len(name) < 2 || !(len(name) > 6 && name[:6] == "nondet" || name[0] == 'v') {
+		return false
+	}
+	if !isHarnessFile(prog, fn) {
+		return false
+	}
+	switch name {
+	case "nondetBool", "nondetU8", "nondetU16", "nondetU32", "nondetU64", "nondetInt", "nondetI64", "vassume", "vassert", "vcover", "vobserve", "vclass", "vpanics", "vblocked", "vsymbolic":
+		return true
+	}
+	return false
 }
